@@ -57,12 +57,25 @@ package chpool
 //@   modifies all(c.client)
 //@   ensures c.client.closed {destructor-closes-client}
 
+//@ -- Pool.Do / Pool.Ping go through the handle: the connection is acquired with Pool.Acquire and
+//@ -- given back with (*Client).Release - the wrapper that destroys a closed or expired connection -
+//@ -- never with puddle's Release directly
 //@ contract (p *Pool) Do(ctx, q) (err) props(C11)
 //@   requires ctx != nil && p != nil && p.pool != nil
 //@   modifies all(p.pool), all(ctx)
+//@   ensures [internal] calls("chpool.(*Pool).Acquire") == 1 {one-acquire}
+//@ nocall puddle/v2.(*Resource).Release
+//@ nocall puddle/v2.(*Pool).Acquire
+//@ callsite chpool.(*Client).Release
+//@   assert calls("chpool.(*Pool).Acquire") == 1 {given-back-through-the-checking-wrapper}
 //@ contract (p *Pool) Ping(ctx) (err) props(C11)
 //@   requires ctx != nil && p != nil && p.pool != nil
 //@   modifies all(p.pool), all(ctx)
+//@   ensures [internal] calls("chpool.(*Pool).Acquire") == 1 {one-acquire}
+//@ nocall puddle/v2.(*Resource).Release
+//@ nocall puddle/v2.(*Pool).Acquire
+//@ callsite chpool.(*Client).Release
+//@   assert calls("chpool.(*Pool).Acquire") == 1 {given-back-through-the-checking-wrapper}
 
 // ---------------------------------------------------------------------------
 // C11: the health check.  Every idle resource it takes is given back exactly once (each of
@@ -177,6 +190,7 @@ package chpool
 //@   ensures [internal] err != nil && calls("createIdleResources") == 1 ==> calls("chpool.(*Pool).Close") == 1 [C11] {a-failed-start-closes-the-pool-it-created}
 //@   ensures [internal] err == nil ==> calls("chpool.(*Pool).Close") == 0 [C11] {a-started-pool-is-not-closed}
 //@   ensures [internal] err == nil && dial ==> calls("puddle/v2.(*Resource).Release") == 1 [C11] {availability-check-connection-given-back}
+//@   ensures [internal] err == nil ==> calls("(*Pool).backgroundHealthCheck") == 1 [C11] {every-started-pool-runs-the-health-checker}
 //@ callsite puddle/v2.NewPool
 //@   assert arg0 != nil && arg0.MaxSize == p.options.MaxConns && (opt.MaxConns != 0 ==> arg0.MaxSize == opt.MaxConns) [C11] {pool-size-is-the-configured-maximum}
 //@ callsite (*Pool).createIdleResources
